@@ -5,6 +5,7 @@ Rules over rustc's MIR of pdl-compiler (lib), pdlc and pdl-derive:
  (b) who-may-call: no ambient inputs (env, clock, randomness, threads, directory listings);
  (c) pipeline: pdlc and both derive macros hand the value flowing out of analyze()'s Ok
      to the same generator entry points; filter_declarations runs before analyze."""
+import json
 import re
 
 from .. import stages, mirfacts as mf
@@ -268,6 +269,62 @@ def check_rust_generate(rep, bodies, n):
         rep.undecided.append(f"rust::generate makes further calls: {extra}")
 
 
+HYGIENE = re.compile(r"\b(mixed_site|def_site|resolved_at|located_at)\b")
+
+
+def check_ident_hygiene(rep, n):
+    """(d') pdlc prints the generated tokens as text, the derive macros hand the same tokens to rustc: the only thing tokens
+    carry beyond their text is span hygiene.  An identifier template (`"{}_count"`) that is built with call-site hygiene
+    at one site (format_ident!) and with another hygiene at a different site (a helper calling Span::mixed_site / def_site /
+    resolved_at) names two different variables under the derive macros and one under pdlc."""
+    from .. import synq
+    call_site, other = {}, {}
+    helpers = set()
+    files = []
+    for root in ("pdl-compiler/src/backends/rust", "pdl-compiler/src/backends/rust/mod.rs"):
+        pass
+    import glob, os
+    from ..core import REPO
+    for pth in sorted(glob.glob(os.path.join(REPO, "pdl-compiler/src/backends/rust/*.rs"))):
+        files.append(os.path.relpath(pth, REPO))
+    norm = lambda t: re.sub(r"\{[^}]*\}", "{}", t)
+    parsed = {}
+    for rel in files:
+        try:
+            js = stages.repo_syn(rel)
+        except Exception:
+            continue
+        parsed[rel] = js
+        for name, f in synq.functions(js).items():
+            toks = json.dumps(f)
+            if HYGIENE.search(toks):
+                helpers.add(name.split("::")[-1])
+    n["hygiene_helpers"] = len(helpers)
+    for rel, js in parsed.items():
+        for m in synq.macros(js, "format_ident"):
+            n["ident_sites"] = n.get("ident_sites", 0) + 1
+            lits = synq.str_lits(m)
+            if lits:
+                call_site.setdefault(norm(lits[0]), []).append(f"{rel}:{m.get('l')}")
+        if helpers:
+            for c in synq.find_all(js, lambda x: x.get("k") == "Call" and x.get("func", {}).get("k") == "Path"
+                                   and x["func"]["path"]["s"].split("::")[-1] in helpers):
+                lits = synq.str_lits(c)
+                for mm in synq.macros(c, "format"):
+                    lits += synq.str_lits(mm)
+                if lits:
+                    other.setdefault(norm(lits[0]), []).append(f"{rel}:{c.get('l')}")
+    n["rules_hygiene"] = len(call_site)
+    for t in sorted(set(call_site) & set(other)):
+        rep.add("C11|derive-vs-pdlc|mixed-hygiene-identifier", f"identifier template `{t}` is built with call-site hygiene at "
+                f"{call_site[t][0]} and through a hygiene helper ({', '.join(sorted(helpers))}) at {other[t][0]}: expanded by "
+                f"#[pdl]/#[pdl_inline] the two do not name the same variable, while pdlc prints identical text for both",
+                call_site[t][0])
+    if n.get("ident_sites", 0) < 10:
+        rep.add("C11|floor|ident-sites", f"only {n.get('ident_sites', 0)} format_ident! sites found in the Rust backend (floor 10)",
+                "pdl-compiler/src/backends/rust")
+
+
 def run(rep, tier, seed):
     n = {"hash_sites": 0, "hash_exceptions": 0, "ambient_sites": 0, "calls": 0, "pipeline_sites": 0, "samples": []}
     comp = stages.mir_bodies("compiler")
@@ -284,6 +341,7 @@ def run(rep, tier, seed):
     check_pipeline_pdlc(rep, pdlc, n)
     check_pipeline_derive(rep, derive, n)
     check_rust_generate(rep, comp, n)
+    check_ident_hygiene(rep, n)
     java = None
     if tier == "thorough":
         try:
